@@ -179,6 +179,10 @@ def run_case(ctx, case):
         _S['active'] = False
     # (b) solved object: |g| <= ||Y||/r inside every core
     if res is not None and res.success:
+        if rng.random() < 0.5:
+            # the user looked at S(k) or B2 first: totalCorr is then held in Fourier space when g(r) is requested
+            (pyPRISM.calculate.structure_factor if rng.random() < 0.5 else pyPRISM.calculate.second_virial)(p)
+            ctx.hook('solved.g_requested_with_h_in_fourier_space')
         g = np.asarray(pyPRISM.calculate.pair_correlation(p).data)
         Y = float(np.abs(res.fun).max())
         for (i, j), (a, b) in G.pairs(sp['types']):
